@@ -259,4 +259,13 @@ def main(argv=None):
     ap.add_argument('--seed', type=int, default=None)
     ap.add_argument('--replay', default=None)
     a = ap.parse_args(argv)
-    sys.exit(run(a.pid, a.tier, a.seed, a.replay))
+    try:
+        rc = run(a.pid, a.tier, a.seed, a.replay)
+    except Exception:
+        # the machinery itself failed (e.g. on output it cannot parse): the property is not shown to hold on this tree
+        payload = dict(property=a.pid, kind='check-crashed', what='the check raised an exception', seed=a.seed,
+                       traceback=traceback.format_exc()[-6000:])
+        p = core.write_replay(a.pid, payload)
+        print('VIOLATION property=%s replay=%s no-failing-input-found' % (a.pid, p))
+        rc = 1
+    sys.exit(rc)
